@@ -7,6 +7,7 @@ RULE = ("online-generated histories heavy in phase changes and retargeting on ch
         "{derived, custom} phase-jump time x bandwidth x clock x min duration x retarget parameters; gaps between "
         "consecutive pulses and target instructions checked against the reference. non-trivial = distinct (case, call) "
         "where the required gap exceeded the gap that would otherwise have occurred, or a retarget had to wait")
+RULE += " Later additions: the phase-jump time is taken from the fields the channel was declared with."
 ASSUMPTIONS = ["fall time = public Pulse.fall_time", "EOM bandwidth >= channel bandwidth in generated devices"]
 TIERS = {"quick": dict(cases=1500, shards=8, case_timeout=120, shard_timeout=900),
          "thorough": dict(cases=24000, shards=16, case_timeout=120, shard_timeout=3000)}
